@@ -225,10 +225,20 @@ def report(layout: int, shape: int, l0: int, l1: int, l2: int, u0: bool, u1: boo
 
 # ---- CLI: arch / length warnings on real files ------------------------------------------------------
 
-def _cli_concrete(isa, with_arch, nlines, marked):
+def _cli_concrete(isa, with_arch, nlines, marked, scalar=False):
     from harness._pipeline import run_cli
     body = ("vaddpd %xmm1, %xmm2, %xmm3\n" if isa == "x86" else "fadd v1.2d, v2.2d, v3.2d\n") * nlines
-    if marked:
+    if scalar and isa == "x86":
+        # scalar code without any vector register, with hexadecimal immediates (the ISA guess has little to go on)
+        body = "addq $0x10, %rax\nsubq $0x20, %rbx\n" * (nlines // 2) + "incq %rcx\n" * (nlines % 2)
+    if marked and scalar:
+        # byte markers (ISA specific), with code before and after
+        m1 = "movl $111, %ebx\n.byte 100,103,144\n" if isa == "x86" else "mov x1, #111\n.byte 213,3,32,31\n"
+        m2 = "movl $222, %ebx\n.byte 100,103,144\n" if isa == "x86" else "mov x1, #222\n.byte 213,3,32,31\n"
+        pad = body[:body.index("\n") + 1] * 60
+        body = pad + m1 + body[:body.index("\n") + 1] * 3 + m2 + pad
+        nlines = 127
+    elif marked:
         c = "#" if isa == "x86" else "//"
         body = "%s OSACA-BEGIN\n%s%s OSACA-END\n" % (c, body, c)
     with tempfile.TemporaryDirectory() as td:
@@ -244,10 +254,10 @@ def _cli_concrete(isa, with_arch, nlines, marked):
     ok = ok and ("You are analyzing a large amount of instruction forms" in out) == (nlines > 100 and not marked)
     if not with_arch or with_arch >= 2:
         ok = ok and ("Architecture:       %s" % default) in out
-    return ok, True, {"isa": isa, "arch_given": archs[with_arch], "lines": nlines, "marked": marked}
+    return ok, True, {"isa": isa, "arch_given": archs[with_arch], "lines": nlines, "marked": marked, "scalar_code_byte_markers": scalar}
 
 
-def cli_warnings(a64: bool, with_arch: int, size: int, marked: bool) -> bool:
+def cli_warnings(a64: bool, with_arch: int, size: int, marked: bool, scalar: bool) -> bool:
     """
     pre: 0 <= size < 3 and 0 <= with_arch < 4
     post: _
@@ -257,7 +267,9 @@ def cli_warnings(a64: bool, with_arch: int, size: int, marked: bool) -> bool:
     n = [3, 100, 101][pick(size, 3)]
     if with_arch >= 2 and (size != 0 or marked):
         return True          # the explicit default model: small unmarked file only
-    ok, nt, sample = native(_cli_concrete, "aarch64" if a64 else "x86", pick(with_arch, 4), n, True if marked else False)
+    if scalar and (with_arch >= 2 or size != 0):
+        return True          # scalar code: one size; marked = byte markers inside a 127-line file
+    ok, nt, sample = native(_cli_concrete, "aarch64" if a64 else "x86", pick(with_arch, 4), n, True if marked else False, True if scalar else False)
     return verdict(ok, nontrivial=nt, sample=sample)
 
 
